@@ -76,6 +76,10 @@ def cases(rng, tier):
         out.append({"t": "hist", "oidc": oidc, "jwt": jwt, "gen_seed": seed, "n": rng.randint(8, 22 if tier == "quick" else 40)})
     for _ in range({"quick": 16, "thorough": 200, "search": 120}[tier]):
         out.append({"t": "session", "oidc": rng.random() < 0.7, "jwt": rng.random() < 0.3, "seed": rng.getrandbits(32)})
+    # a client with usage rules of its own (partial ones): lifetimes and minting rights as merged, the clock moving past them
+    for _ in range({"quick": 10, "thorough": 120, "search": 80}[tier]):
+        out.append({"t": "hist", "oidc": rng.random() < 0.6, "jwt": rng.random() < 0.3, "usage": "c1rules", "gen_seed": rng.getrandbits(48),
+                    "n": rng.randint(10, 24 if tier == "quick" else 40)})
     for _ in range({"quick": 10, "thorough": 120, "search": 80}[tier]):
         out.append({"t": "xchain", "oidc": rng.random() < 0.6, "jwt": False, "usage": "exchange", "seed": rng.getrandbits(32)})
     for i in range(n // 2):
@@ -195,7 +199,7 @@ def _ops_for(c):
         return _session_ops(c)
     import random
     ops, _ = prov.gen_adaptive(random.Random(c["gen_seed"]), c["n"], oidc=c["oidc"], jwt=c["jwt"], usage=c.get("usage"),
-                               weights=XW if c.get("usage") == "exchange" else None)
+                               weights=XW if c.get("usage") == "exchange" else dict(tick=14, refresh=16, redeem=22) if c.get("usage") == "c1rules" else None)
     return ops
 
 
@@ -246,6 +250,16 @@ def oracle(c, obs):
     for i, st in enumerate(obs["steps"]):
         o = ops[i]
         for t in st["proj"]["toks"]:
+            if t[0] not in info and c.get("usage") != "exchange":
+                # the lifetime the CONFIGURATION gives this class for this client (general usage rules, a client's own rules merged over them)
+                life = {"code": 300, "access": 3600, "refresh": 86400, "idtoken": 300}.get(t[1])
+                cl_ = grant_of.get(t[2], (None, None))[1]
+                if cl_ is None and o[0] == "authorize":
+                    cl_ = o[2]
+                if c.get("usage") == "c1rules" and cl_ == "client_1" and t[1] == "access":
+                    life = 600
+                if life and cl_ is not None and t[6] != st["now"] + life:
+                    v.append({"cls": "configured-lifetime-not-applied", "step": i, "token_class": t[1], "client": cl_, "expires_at": t[6], "minted_at": st["now"], "configured": life})
             info.setdefault(t[0], [t[1], t[2], t[3], t[6]])
         if o[0] == "authorize" and st["raw"][0] == "code":
             ginfo = info.get(st["raw"][1])
